@@ -265,6 +265,22 @@ func (g *gen) sqrtLegendre(pk string, m *big.Int) {
 		}
 		w = mod(mul(w, w), m)
 	}
+	// small integers and their squares; powers c^(±2^j) of small bases: x^s = (c^s)^(±2^j) walks through the
+	// 2-Sylow subgroup relative to every small non-residue base, which drives Tonelli–Shanks to its deepest
+	// correction chains (e.g. x = 25 when the generator constant is 5^s)
+	for n := int64(1); n <= 64; n++ {
+		g.add("%s.sqrt %d", pk, n)
+		g.add("%s.sqrt@zx %s", pk, mod(mul(small(n), small(n)), m))
+		g.add("%s.legendre %d", pk, n)
+	}
+	for _, c := range []int64{2, 3, 5, 6, 7, 10, 11} {
+		cur := small(c)
+		for j := 0; j <= e+1; j++ {
+			g.add("%s.sqrt@%s %s", pk, unAlias[r.intn(2)], cur)
+			g.add("%s.sqrt %s", pk, inv(cur, m))
+			cur = mod(mul(cur, cur), m)
+		}
+	}
 	for i := 0; i < g.n(150, 3000); i++ {
 		x := r.felem(m)
 		g.add("%s.legendre %s", pk, x)
@@ -528,7 +544,7 @@ func (g *gen) curve() {
 		g.add("bj.mul %s %s", s, pt(p))
 	}
 	for _, s := range sc {
-		g.add("bj.mul %s %s", s, pt(babyjub.B8))
+		g.add("bj.mul %s %s", s, pt(toPoint(refB8)))
 		g.add("bj.mul %s %s", s, pt(fullG))
 		g.add("bj.mulconst %s", s)
 	}
@@ -541,14 +557,14 @@ func (g *gen) membership() {
 	for _, p := range smallPts {
 		g.add("bj.incurve %s", pt(p))
 		g.add("bj.insubgroup %s", pt(p))
-		s := babyjub.NewPoint().Mul(r.below(L), babyjub.B8)
+		s := pmulB8(r.below(L))
 		sp := padd(s, p)
 		g.add("bj.insubgroup %s", pt(sp))
 		g.add("bj.incurve %s", pt(sp))
 	}
 	g.add("bj.incurve 0 0")
 	g.add("bj.insubgroup 0 0")
-	g.add("bj.insubgroup %s", pt(babyjub.B8))
+	g.add("bj.insubgroup %s", pt(toPoint(refB8)))
 	g.add("bj.insubgroup %s", pt(fullG))
 	for i := 0; i < g.n(200, 4000); i++ {
 		p := r.anyPoint()
@@ -571,15 +587,28 @@ func (g *gen) receiver() {
 		if r.bool() {
 			s = r.below(mul(L, small(8)))
 		}
-		g.add("bj.mulrecv@%s %s %s", []string{"fresh", "self"}[r.intn(2)], s, pt(p))
+		g.add("bj.mulrecv@%s %s %s", []string{"fresh", "self", "dirty"}[r.intn(3)], s, pt(p))
 		g.add("bj.set@%s %s", []string{"fresh", "self"}[r.intn(2)], pt(p))
 		c := p.Compress()
 		g.add("bj.decompress@%s %s", []string{"fresh", "dirty"}[r.intn(2)], hx(c[:]))
 		sig := append(append([]byte{}, c[:]...), r.bytes(32)...)
 		g.add("ed.sigdecompress@%s %s", []string{"recv", "dirty", "comp"}[r.intn(3)], hx(sig))
 	}
-	g.add("bj.mulrecv@fresh 5 %s", pt(babyjub.B8))
-	g.add("bj.mulrecv@self 5 %s", pt(babyjub.B8))
+	g.add("bj.mulrecv@fresh 5 %s", pt(toPoint(refB8)))
+	g.add("bj.mulrecv@self 5 %s", pt(toPoint(refB8)))
+	// every boundary scalar and the special points with every receiver pattern
+	special := []*babyjub.Point{toPoint(refB8), smallPts[0], smallPts[1], smallPts[4], fullG}
+	for _, s := range sc {
+		for _, p := range special {
+			g.add("bj.mulrecv@%s %s %s", []string{"fresh", "self", "dirty"}[r.intn(3)], s, pt(p))
+		}
+	}
+	for _, p := range special {
+		for _, pat := range []string{"fresh", "self", "dirty"} {
+			g.add("bj.mulrecv@%s 0 %s", pat, pt(p))
+			g.add("bj.mulrecv@%s 1 %s", pat, pt(p))
+		}
+	}
 }
 
 // ---------------- C06 : compression ----------------
@@ -685,8 +714,9 @@ func signWith(h string, k []byte, msg *big.Int) *babyjub.Signature {
 	} else {
 		sig, err = pk.SignMimc7(msg)
 	}
-	if err != nil {
-		panic("harness: sign failed in generator: " + err.Error())
+	if err != nil || sig == nil || sig.R8 == nil || sig.S == nil {
+		// the library under test failed to sign: still produce a well-formed input tuple
+		return &babyjub.Signature{R8: pmulB8(small(5)), S: small(5)}
 	}
 	return sig
 }
@@ -1072,7 +1102,7 @@ func (g *gen) mixed(n int) {
 		sg.add("mimc7.hash [1] %s", h)
 		sg.add("mimc7.mimc7hash %s %s", h, h)
 		sg.add("bj.incurve %s %s", h, h)
-		sg.add("bj.mul %s %s", pow2(600), pt(babyjub.B8))
+		sg.add("bj.mul %s %s", pow2(600), pt(toPoint(refB8)))
 		sg.add("bj.compress %s %s", h, h)
 		sg.add("u.lebytes %s", h)
 		sg.add("u.infield %s", h)
